@@ -413,37 +413,38 @@ def rule_iter_loops(ctx, R):
                             "get_all_slices_mut is not called inside the iteration before the closure call", where_of(f), fn=f.key)
             # arms
             dcalls = [e for e in effs if e[0] == "call" and cname(e[2]).endswith("Archetype::destroy")]
-            step = step_value(p, calls)
+            steps = step_set(p, calls, 4 if destroy else 2)
             after_loops = False
             if calls:
                 after = p.effects[p.effects.index(calls[0]):]
                 after_loops = any(e[0] == "loop" for e in after)
             ends_back = isinstance(p.end, tuple) and p.end[0] == "backedge" and p.end[1] == header
-            if step is None:
+            if steps is None:
                 continue
-            if not destroy:
+            for step in sorted(steps):
+              if not destroy:
                 if step == 0:
                     R.check(ends_back, "C06-R3", k2 + "|Continue", "Continue -> next index of the same archetype", "EcsStep::Continue arm ends with %s" % (p.end,), where_of(f), fn=f.key)
                 elif step == 1:
                     R.check(p.end == "return" and not after_loops, "C06-R3", k2 + "|Break", "Break leaves the whole query at once",
                             "EcsStep::Break arm %s" % ("continues into another archetype's loop" if after_loops else "ends with %s" % (p.end,)), where_of(f), fn=f.key)
-            else:
-                exp = {0: (True, 0), 1: (False, 0), 2: (True, 1), 3: (False, 1)}.get(step)
-                nm = {0: "Continue", 1: "Break", 2: "ContinueDestroy", 3: "BreakDestroy"}.get(step, str(step))
-                if exp is None:
-                    continue
-                cont, nd = exp
-                okend = ends_back if cont else (p.end == "return" and not after_loops)
-                R.check(okend and len(dcalls) == nd, "C07-R2", k2 + "|" + nm, "%s -> %s, %d destroy" % (nm, "next index" if cont else "leave the query", nd),
-                        "EcsStepDestroy::%s arm: ends with %s%s and destroys %d entities; expected %s and %d" % (nm, p.end, " (enters another loop)" if after_loops else "", len(dcalls), "back-edge" if cont else "return", nd), where_of(f), fn=f.key)
-                if nd == 1 and dcalls and calls:
-                    ent = N(dcalls[0][3][1])
-                    cargs = N(calls[0][3][1])
-                    cidx = {strip_epochs(x) for x in subterms(cargs) if loop_item(x) is not None}
-                    eidx = {strip_epochs(x) for x in subterms(ent) if loop_item(x) is not None}
-                    from_entities = contains(ent, lambda x: x[0] == "load" and "entities" in show(x))
-                    R.check(eidx == cidx and len(eidx) == 1 and from_entities, "C07-R2", k2 + "|" + nm + "-target", "the entity destroyed is entities[idx] of the visit just made",
-                            "destroy is called with %s; expected slices.entity[idx] with the visit's idx" % show(ent)[:160], where_of(f, dcalls[0][5]), fn=f.key)
+              else:
+                  exp = {0: (True, 0), 1: (False, 0), 2: (True, 1), 3: (False, 1)}.get(step)
+                  nm = {0: "Continue", 1: "Break", 2: "ContinueDestroy", 3: "BreakDestroy"}.get(step, str(step))
+                  if exp is None:
+                      continue
+                  cont, nd = exp
+                  okend = ends_back if cont else (p.end == "return" and not after_loops)
+                  R.check(okend and len(dcalls) == nd, "C07-R2", k2 + "|" + nm, "%s -> %s, %d destroy" % (nm, "next index" if cont else "leave the query", nd),
+                          "EcsStepDestroy::%s arm: ends with %s%s and destroys %d entities; expected %s and %d" % (nm, p.end, " (enters another loop)" if after_loops else "", len(dcalls), "back-edge" if cont else "return", nd), where_of(f), fn=f.key)
+                  if nd == 1 and dcalls and calls:
+                      ent = N(dcalls[0][3][1])
+                      cargs = N(calls[0][3][1])
+                      cidx = {strip_epochs(x) for x in subterms(cargs) if loop_item(x) is not None}
+                      eidx = {strip_epochs(x) for x in subterms(ent) if loop_item(x) is not None}
+                      from_entities = contains(ent, lambda x: x[0] == "load" and "entities" in show(x))
+                      R.check(eidx == cidx and len(eidx) == 1 and from_entities, "C07-R2", k2 + "|" + nm + "-target", "the entity destroyed is entities[idx] of the visit just made",
+                              "destroy is called with %s; expected slices.entity[idx] with the visit's idx" % show(ent)[:160], where_of(f, dcalls[0][5]), fn=f.key)
         # every way out of the query is either falling off the end after having entered the loop of every
         # matched archetype, or a Break / BreakDestroy arm: nothing else may end the query early
         for pi, p in enumerate(ps):
@@ -452,12 +453,12 @@ def rule_iter_loops(ctx, R):
             segs = loop_segments(p)
             entered = len(segs)
             calls_last = user_closure_calls(segs[-1][1], base) if segs else []
-            step = step_value(p, calls_last) if calls_last else None
+            steps_l = step_set(p, calls_last, 4 if destroy else 2) if calls_last else None
             last_hdr_exhausted = False
             if segs:
                 nx2 = [e for e in segs[-1][1] if e[0] == "call" and cname(e[2]).endswith("next")]
                 last_hdr_exhausted = any(c[2] == "branch" and N(c[0])[0] == "discr" and is_call(N(c[0])[1], "next") and c[1] in ((0,), ("not", 1)) and c[4] >= p.effects.index(nx2[0]) for c in p.conds) if nx2 else False
-            is_break = bool(calls_last) and step in ((1,) if not destroy else (1, 3)) and not last_hdr_exhausted
+            is_break = bool(calls_last) and bool(steps_l) and steps_l <= ({1} if not destroy else {1, 3}) and not last_hdr_exhausted
             R.check(is_break or (entered == len(want) and last_hdr_exhausted), "C06-R3" if not destroy else "C07-R1", "%s|exit#%d" % (qname, pi),
                     "the query ends only by %s or after every matched archetype was walked" % ("Break" if not destroy else "Break/BreakDestroy"),
                     "ecs_%s! can return after entering %d of %d archetype loops without a Break (guards: %s): later matched archetypes are never visited" % (
@@ -505,11 +506,15 @@ def atomc(c):
     return True
 
 
-def step_value(p, calls):
-    """Which EcsStep(Destroy) discriminant this iteration path took (None: closure returns unit -> constant Continue)."""
+def step_set(p, calls, nvariants=4):
+    """Which EcsStep(Destroy) discriminants are consistent with every test this iteration path makes on the value the
+    closure returned (arms may be merged and refined by a later test on the same value). None: no closure call.
+    A closure returning () / a constant has From<()> inlined to Continue."""
     if not calls:
         return None
     cv = ("call", calls[0][2], tuple(N(a) for a in calls[0][3]))
+    possible = set(range(nvariants))
+    tested = False
     for c in p.conds:
         if c[2] != "branch":
             continue
@@ -519,19 +524,21 @@ def step_value(p, calls):
             inner = inner[2][0]  # EcsStepDestroy::from(EcsStep) keeps Continue/Break (rule From<EcsStep>)
         if inner is not None and strip_epochs(inner) == strip_epochs(cv):
             vals = c[1]
+            tested = True
             if vals and vals[0] != "not":
-                return vals[0]
-            if vals == ("not", 1):
-                return 0
-            if vals == ("not", 0):
-                return 1
-            # otherwise-arm of a 4-way switch: the missing value
-            excl = set(vals[1:])
-            rest = [v for v in (0, 1, 2, 3) if v not in excl]
-            if len(rest) == 1:
-                return rest[0]
-    # closure returning () / a constant: From<()> is inlined to Continue
-    return 0
+                possible &= set(vals)
+            else:
+                possible -= set(vals[1:])
+    if not tested:
+        return {0}
+    return possible
+
+
+def step_value(p, calls):
+    s_ = step_set(p, calls)
+    if s_ is None:
+        return None
+    return sorted(s_)[0] if len(s_) == 1 else None
 
 
 # ----------------------------------------------------------------------------------
@@ -575,7 +582,8 @@ def rule_find_dispatch(ctx, R):
                     R.check(okf, "C05-R5", "%s|arm(%d)" % (qname, v), "variant %d (%s%s) fetches from world.%s" % (v, arch, "Direct" if v >= n else "", field),
                             "match arm for SelectTotal variant %d fetches from %s; expected world.%s" % (v, show(N(fetch[0][3][0]))[:100] if fetch else None, field), where_of(f), fn=f.key)
                     # the closure is only reached through Option::map of the fetch result
-                    okm = is_call(ret, "Option::map") and contains(ret, lambda x: is_call(x, "resolve_for"))
+                    # (the receiver of the map is whatever the fetch inlines to: view/borrow -> resolve_* -> get_view_mut/begin_borrow -> resolve)
+                    okm = is_call(ret, "Option::map") and contains(ret[2][0], lambda x: x[0] == "call" and any(k_ in x[1] for k_ in ("resolve_for", "resolve_view", "resolve_borrow", "get_view", "begin_borrow", "Archetype::view", "Archetype::borrow", "::resolve")) and field in show(x))
                     R.check(okm, "C05-R5", "%s|arm(%d)-map" % (qname, v), "closure only runs inside .map of the fetch", "arm returns %s" % show(ret)[:120], where_of(f), fn=f.key)
         R.check(sorted(got_vals) == want_vals, "C05-R7", qname + "|arms==matched", "match arms %s == matched archetypes %s (typed and direct)" % (sorted(got_vals), want),
                 "ecs_%s! has arms for SelectTotal variants %s; the independent matcher expects %s (archetypes %s)" % (qname.split("__")[0], sorted(got_vals), want_vals, want), where_of(f), fn=f.key)
